@@ -131,7 +131,8 @@ def Settled (w : World) : Prop := ∀ c ∈ w.conns, (c.alive = true → c.inCom
 
 /-- per connection: `ConnInv` plus "a stored handshake completion belongs to a connection the application has
     not seen yet" (without it a second CONNECTED event could be produced from an arbitrary world) -/
-def aux_CIS (c : Conn) : Prop := ConnInv c ∧ (c.hsStored = true → c.connectedSeen = 0)
+def aux_CIS (c : Conn) : Prop :=
+  ConnInv c ∧ ((c.hsStored = true → c.connectedSeen = 0) ∧ (c.inHttp = true → c.connected = true))
 
 def aux_InvC (w : World) : Prop := ∀ c ∈ w.conns, aux_CIS c
 
@@ -217,7 +218,7 @@ theorem aux_invc_closeConn {w : World} (i : Nat) (h : aux_InvC w) : aux_InvC (cl
   simp only []
   split
   · exact h
-  · refine aux_invc_upd_frame (fun c hc => ⟨hc.1, by simp⟩) ?_
+  · refine aux_invc_upd_frame (fun c hc => ⟨hc.1, by simp, hc.2.2⟩) ?_
     exact h
 macro_rules | `(tactic| aux_inv_step) => `(tactic| with_reducible refine aux_invc_closeConn _ ?_)
 
@@ -258,7 +259,7 @@ theorem aux_invc_map {l : List Conn} (g : Conn → Conn) (hl : ∀ c ∈ l, aux_
 
 theorem aux_cis_clearBoth {c : Conn} (h : aux_CIS c) : aux_CIS { c with inHttp := false, inComms := false } := by
   obtain ⟨⟨h1, h2, h3, h4, h5, h6, h7⟩, h8⟩ := h
-  exact ⟨⟨h1, h2, h3, by simp, by simp, h6, by simp⟩, h8⟩
+  exact ⟨⟨h1, h2, h3, by simp, by simp, h6, by simp⟩, h8.1, by simp⟩
 
 theorem aux_cis_clearComms {c : Conn} (h : aux_CIS c) (hh : c.inHttp = false) : aux_CIS { c with inComms := false } := by
   obtain ⟨⟨h1, h2, h3, h4, h5, h6, h7⟩, h8⟩ := h
@@ -307,7 +308,7 @@ theorem aux_cis_disc {c : Conn} (h : aux_CIS c) (hh : c.inHttp = true) :
     aux_CIS { c with disconnectedSeen := c.disconnectedSeen + 1, inHttp := false } := by
   obtain ⟨⟨h1, h2, h3, h4, h5, h6, h7⟩, h8⟩ := h
   obtain ⟨a, b, c', d⟩ := h4 hh
-  exact ⟨⟨h1, by simp [a, b], h3, by simp, h5, h6, by simp⟩, h8⟩
+  exact ⟨⟨h1, by simp [a, b], h3, by simp, h5, h6, by simp⟩, h8.1, by simp⟩
 
 theorem aux_invc_upd2 {w : World} {i : Nat} {f g : Conn → Conn} {s : String} (h : aux_InvC w)
     (hf : i < w.conns.length → aux_CIS (g (f (w.get i)))) : aux_InvC (((w.upd i f).emit s).upd i g) := by
@@ -317,6 +318,19 @@ theorem aux_invc_upd2 {w : World} {i : Nat} {f g : Conn → Conn} {s : String} (
 
 theorem aux_cis_inHttp_alive {c : Conn} (h : aux_CIS c) (hh : c.inHttp = true) : c.alive = true :=
   h.1.2.2.2.2.1 (h.1.2.2.2.1 hh).2.2.1
+
+/-- an application callback on a connection the server holds: it is not after the disconnected event -/
+theorem aux_invc_noteEvent {w : World} {i : Nat} (h : aux_InvC w) (hin : (w.get i).inHttp = true) :
+    aux_InvC (w.noteEvent i) :=
+  aux_invc_upd h (fun _ => aux_cis_sent (aux_cis_get h i) hin)
+
+@[simp] theorem aux_get_noteEvent_inHttp (w : World) (i k : Nat) : ((w.noteEvent i).get k).inHttp = (w.get k).inHttp := by
+  unfold World.noteEvent
+  exact aux_get_upd_pres (fun c => c.inHttp = (w.get k).inHttp) k (fun _ hc => hc) rfl
+
+@[simp] theorem aux_opts_noteEvent (w : World) (i : Nat) : (w.noteEvent i).opts = w.opts := rfl
+
+macro_rules | `(tactic| aux_inv_step) => `(tactic| ((with_reducible refine aux_invc_noteEvent ?_ ?hin); case hin => assumption))
 
 theorem aux_invc_httpEvent {w : World} (fuel i ev : Nat) (hev : ev ≠ 0) (h : aux_InvC w) :
     aux_InvC (httpEvent fuel w i ev) := by
@@ -332,8 +346,7 @@ theorem aux_invc_httpEvent {w : World} (fuel i ev : Nat) (hev : ev ≠ 0) (h : a
     · exact h
     next hal hin =>
     have hin' : (w.get i).inHttp = true := by simpa using hin
-    have h1 : aux_InvC (w.upd i fun c => { c with otherAfterDisc := c.otherAfterDisc + (if c.disconnectedSeen > 0 then 1 else 0) }) :=
-      aux_invc_upd h (fun _ => aux_cis_sent (aux_cis_get h i) hin')
+    have h1 : aux_InvC (w.noteEvent i) := aux_invc_noteEvent h hin'
     split
     · split
       · split
@@ -497,16 +510,69 @@ theorem aux_invc_routeRequest {w : World} (fuel i : Nat) (hf : 8 ≤ fuel) (h : 
   aux_inv_auto
 macro_rules | `(tactic| aux_inv_step) => `(tactic| ((with_reducible refine aux_invc_routeRequest _ _ ?hfuel ?_); case hfuel => first | decide | omega))
 
-theorem aux_invc_requestHandler {w : World} (fuel i : Nat) (hf : 8 ≤ fuel) (h : aux_InvC w) :
-    aux_InvC (requestHandler fuel w i) := by
+theorem aux_invc_requestHandler {w : World} (fuel i : Nat) (hf : 8 ≤ fuel) (hin : (w.get i).inHttp = true)
+    (h : aux_InvC w) : aux_InvC (requestHandler fuel w i) := by
   unfold requestHandler
   simp only []
   split
   · aux_inv_auto
-  · have h' : aux_InvC { (w.emit s!"ev request {cn i} {reqFields (w.get i).rx}") with
-        k := (w.emit s!"ev request {cn i} {reqFields (w.get i).rx}").k + 1 } := h
+  · have h' : aux_InvC { ((w.noteEvent i).emit s!"ev request {cn i} {reqFields (w.get i).rx}") with
+        k := ((w.noteEvent i).emit s!"ev request {cn i} {reqFields (w.get i).rx}").k + 1 } :=
+      aux_invc_noteEvent h hin
     aux_inv_auto
-macro_rules | `(tactic| aux_inv_step) => `(tactic| ((with_reducible refine aux_invc_requestHandler _ _ ?hfuel ?_); case hfuel => first | decide | omega))
+macro_rules | `(tactic| aux_inv_step) => `(tactic| ((with_reducible refine aux_invc_requestHandler _ _ ?hfuel ?hin ?_); (case hfuel => first | decide | omega); (case hin => assumption)))
+
+/-! a response sent on a held (hence connected) connection never ends the session synchronously: the write is started
+    (or one is already in flight), so a `disconnect()` that follows is deferred -/
+
+theorem aux_sendData_held (w : World) (i : Nat) (bufs : List Buf) (hcon : (w.get i).connected = true) :
+    ((sendData w i bufs).1.get i).transmitting = true ∧ ((sendData w i bufs).1.get i).inHttp = (w.get i).inHttp ∧
+    ((sendData w i bufs).1.get i).connected = true := by
+  have hi : i < w.conns.length := by
+    by_cases hi : i < w.conns.length
+    · exact hi
+    · rw [aux_get_oob _ _ (Nat.le_of_not_lt hi)] at hcon; cases hcon
+  unfold sendData
+  simp only []
+  split
+  · next ht => exact ⟨ht, rfl, hcon⟩
+  · simp only [hcon, if_true]
+    rw [aux_get_emit, aux_get_upd_self _ _ _ hi]
+    exact ⟨rfl, rfl, hcon⟩
+
+theorem aux_sendTail_held (fuel : Nat) (w : World) (i : Nat) (bufs : List Buf) (b : Bool)
+    (hin : (w.get i).inHttp = true) (hcon : (w.get i).connected = true) :
+    ((httpSendTail fuel w i bufs b).1.get i).inHttp = true := by
+  cases fuel with
+  | zero => simpa [httpSendTail] using hin
+  | succ n =>
+    simp only [httpSendTail]
+    have hin1 : ((w.upd i fun c => { c with rx := if b then { c.rx with continueSent := true } else c.rx.clear }).get i).inHttp = true :=
+      aux_get_upd_pres (fun c => c.inHttp = true) i (fun _ hc => hc) hin
+    have hcon1 : ((w.upd i fun c => { c with rx := if b then { c.rx with continueSent := true } else c.rx.clear }).get i).connected = true :=
+      aux_get_upd_pres (fun c => c.connected = true) i (fun _ hc => hc) hcon
+    generalize (w.upd i fun c => { c with rx := if b then { c.rx with continueSent := true } else c.rx.clear }) = w1 at hin1 hcon1 ⊢
+    split
+    · exact hin1
+    · obtain ⟨ht, hi2, _⟩ := aux_sendData_held w1 i bufs hcon1
+      split
+      · simp only []; rw [hi2]; exact hin1
+      · cases n with
+        | zero => simp only [disconnectConn]; rw [hi2]; exact hin1
+        | succ m =>
+          simp only [disconnectConn, ht, Bool.not_true, Bool.false_eq_true, if_false]
+          refine aux_get_upd_pres (fun c => c.inHttp = true) i (fun _ hc => hc) ?_
+          rw [hi2]; exact hin1
+
+theorem aux_sendResponse_held (fuel : Nat) (w : World) (i : Nat)
+    (hin : (w.get i).inHttp = true) (hcon : (w.get i).connected = true) :
+    ((httpSendResponse fuel w i).1.get i).inHttp = true := by
+  cases fuel with
+  | zero => simpa [httpSendResponse] using hin
+  | succ n =>
+    simp only [httpSendResponse]
+    exact aux_sendTail_held _ _ _ _ _ (aux_get_upd_pres (fun c => c.inHttp = true) i (fun _ hc => hc) hin)
+      (aux_get_upd_pres (fun c => c.connected = true) i (fun _ hc => hc) hcon)
 
 theorem aux_invc_receiveLoop (fuel i : Nat) (hf : 8 ≤ fuel) (n : Nat) :
     ∀ (w : World) (buf : Bytes), aux_InvC w → aux_InvC (receiveLoop fuel w i n buf) := by
@@ -515,6 +581,21 @@ theorem aux_invc_receiveLoop (fuel i : Nat) (hf : 8 ≤ fuel) (n : Nat) :
   | succ n ih =>
     intro w buf h
     simp only [receiveLoop]
+    split
+    · exact h
+    next hne =>
+    have hin : (w.get i).inHttp = true := by
+      simp only [Bool.or_eq_true, Bool.not_eq_true', not_or, Bool.not_eq_false] at hne
+      exact hne.2
+    have hcon : (w.get i).connected = true := (aux_cis_get h i).2.2 hin
+    generalize hp : RR.receive { w.opts.cfg with concatChunks := !w.opts.chunkh } (w.get i).rx buf = p
+    have h1 : aux_InvC (w.upd i fun c => { c with rx := p.1 }) := by aux_inv_auto
+    have hin1 : ((w.upd i fun c => { c with rx := p.1 }).get i).inHttp = true :=
+      aux_get_upd_pres (fun c => c.inHttp = true) i (fun _ hc => hc) hin
+    have hcon1 : ((w.upd i fun c => { c with rx := p.1 }).get i).connected = true :=
+      aux_get_upd_pres (fun c => c.connected = true) i (fun _ hc => hc) hcon
+    have hin2 := aux_sendResponse_held fuel _ i hin1 hcon1
+    generalize (w.upd i fun c => { c with rx := p.1 }) = w1 at h1 hin1 hcon1 hin2 ⊢
     repeat' (first | aux_inv_step | refine ih _ _ ?_ | split)
 
 theorem aux_invc_readCallback {w : World} (i : Nat) (err : Option Err) (data : Bytes) (h : aux_InvC w) :
@@ -526,15 +607,16 @@ theorem aux_invc_readCallback {w : World} (i : Nat) (err : Option Err) (data : B
 macro_rules | `(tactic| aux_inv_step) => `(tactic| with_reducible refine aux_invc_readCallback _ _ _ ?_)
 
 theorem aux_cis_connect {c : Conn} {rx : RR} (h : aux_CIS c) (ha : c.alive = true) (h0 : c.connectedSeen = 0)
-    (hs : c.hsStored = false) (hset : c.alive = true → c.inComms = true) :
+    (hs : c.hsStored = false) (hset : c.alive = true → c.inComms = true) (hcon : c.connected = true) :
     aux_CIS { c with httpAlive := true, inHttp := true, rx := rx, appKnows := true,
                      connectedSeen := c.connectedSeen + 1 } := by
   obtain ⟨⟨h1, h2, h3, h4, h5, h6, h7⟩, h8⟩ := h
   have hd : c.disconnectedSeen = 0 := by omega
-  refine ⟨⟨?_, ?_, h3, ?_, h5, ?_, ?_⟩, ?_⟩ <;> simp [h0, hd, ha, hs, hset ha]
+  refine ⟨⟨?_, ?_, h3, ?_, h5, ?_, ?_⟩, ?_, ?_⟩ <;> simp [h0, hd, ha, hs, hset ha, hcon]
 
 theorem aux_invc_httpEvent0 {w : World} (fuel i : Nat) (hf : 7 ≤ fuel) (h : aux_InvC w) (h0 : (w.get i).connectedSeen = 0)
-    (hs : (w.get i).hsStored = false) (hset : (w.get i).alive = true → (w.get i).inComms = true) :
+    (hs : (w.get i).hsStored = false) (hset : (w.get i).alive = true → (w.get i).inComms = true)
+    (hcon : (w.get i).connected = true) :
     aux_InvC (httpEvent fuel w i 0) := by
   obtain ⟨n, rfl⟩ : ∃ n, fuel = n + 7 := ⟨fuel - 7, by omega⟩
   simp only [httpEvent, BEq.rfl, if_true]
@@ -546,21 +628,23 @@ theorem aux_invc_httpEvent0 {w : World} (fuel i : Nat) (hf : 7 ≤ fuel) (h : au
   · have h1 : aux_InvC ((w.upd i fun c => { c with httpAlive := true, inHttp := true, rx := {}, appKnows := true,
                                                    connectedSeen := c.connectedSeen + 1 }).emit s!"ev connected {cn i}") := by
       refine aux_invc_emit ?_
-      exact aux_invc_upd h (fun _ => aux_cis_connect (aux_cis_get h i) (by simpa using ha) h0 hs hset)
+      exact aux_invc_upd h (fun _ => aux_cis_connect (aux_cis_get h i) (by simpa using ha) h0 hs hset hcon)
     split
     · exact aux_invc_disconnect _ _ (by omega) h1
     · exact h1
 
 theorem aux_invc_commsEvent0 {w : World} (fuel i : Nat) (hf : 8 ≤ fuel) (h : aux_InvC w) (h0 : (w.get i).connectedSeen = 0)
-    (hs : (w.get i).hsStored = false) (hset : (w.get i).alive = true → (w.get i).inComms = true) :
+    (hs : (w.get i).hsStored = false) (hset : (w.get i).alive = true → (w.get i).inComms = true)
+    (hcon : (w.get i).connected = true) :
     aux_InvC (commsEvent fuel w i 0) := by
   obtain ⟨n, rfl⟩ : ∃ n, fuel = n + 8 := ⟨fuel - 8, by omega⟩
   simp only [commsEvent]
   have e : ((0 : Nat) == 2) = false := rfl
   simp only [e, Bool.false_eq_true, if_false]
-  exact aux_invc_httpEvent0 _ _ (by omega) h h0 hs hset
+  exact aux_invc_httpEvent0 _ _ (by omega) h h0 hs hset hcon
 
-theorem aux_invc_handshake {w : World} (i : Nat) (ok : Bool) (h : aux_InvC w) (h0 : (w.get i).connectedSeen = 0)
+theorem aux_invc_handshake {w : World} (i : Nat) (ok : Bool) (h : aux_InvC w) (hi : i < w.conns.length)
+    (h0 : (w.get i).connectedSeen = 0)
     (hs : (w.get i).hsStored = false) (hset : (w.get i).alive = true → (w.get i).inComms = true) :
     aux_InvC (handshakeCallback w i ok) := by
   unfold handshakeCallback
@@ -569,11 +653,12 @@ theorem aux_invc_handshake {w : World} (i : Nat) (ok : Bool) (h : aux_InvC w) (h
   · exact h
   split
   · have h1 : aux_InvC (commsEvent FUEL (w.upd i fun c => { c with connected := true }) i 0) := by
-      refine aux_invc_commsEvent0 _ _ (by decide) ?_ ?_ ?_ ?_
-      · aux_inv_auto
+      refine aux_invc_commsEvent0 _ _ (by decide) ?_ ?_ ?_ ?_ ?_
+      · exact aux_invc_upd_frame (fun c hc => ⟨hc.1, hc.2.1, fun _ => rfl⟩) h
       · exact aux_get_upd_pres (fun c => c.connectedSeen = 0) i (fun _ hc => hc) h0
       · exact aux_get_upd_pres (fun c => c.hsStored = false) i (fun _ hc => hc) hs
       · exact aux_get_upd_pres (fun c => c.alive = true → c.inComms = true) i (fun _ hc => hc) hset
+      · rw [aux_get_upd_self _ _ _ hi]
     split
     · exact aux_invc_enableReception _ h1
     · exact h1
@@ -734,8 +819,9 @@ theorem aux_invc_hs_step {w : World} {i : Nat} (ok : Bool) (h : InvS w) (hi : i 
     aux_InvC (handshakeCallback (w.upd i fun c => { c with hsStored := false }) i ok) := by
   have hc := aux_cis_get h.1 i
   apply aux_invc_handshake
-  · exact aux_invc_upd_frame (fun c hc => ⟨hc.1, by simp⟩) h.1
-  · rw [aux_get_upd_self _ _ _ hi]; exact hc.2 hst
+  · exact aux_invc_upd_frame (fun c hc => ⟨hc.1, by simp, hc.2.2⟩) h.1
+  · simpa using hi
+  · rw [aux_get_upd_self _ _ _ hi]; exact hc.2.1 hst
   · rw [aux_get_upd_self _ _ _ hi]
   · rw [aux_get_upd_self _ _ _ hi]; exact aux_settled_get h.2 i
 
@@ -803,6 +889,7 @@ theorem aux_invs_opAccept {w : World} (ws : List String) (h : InvS w) : InvS (op
   have hget := aux_get_append_new w1 nc
   split
   · apply aux_invc_handshake _ _ h2
+    · simp
     · rw [hget, ← hnc]
     · rw [hget, ← hnc]
     · rw [hget, ← hnc]; intro _; rfl
@@ -841,9 +928,12 @@ theorem InvS_implies {w : World} (h : InvS w) : Inv w ∧ Settled w :=
     application has not been told about -/
 def HsFresh (w : World) : Prop := ∀ c ∈ w.conns, c.hsStored = true → c.connectedSeen = 0
 
-theorem InvS_iff (w : World) : InvS w ↔ Inv w ∧ Settled w ∧ HsFresh w :=
-  ⟨fun h => ⟨fun c hc => (h.1 c hc).1, h.2, fun c hc => (h.1 c hc).2⟩,
-   fun h => ⟨fun c hc => ⟨h.1 c hc, h.2.2 c hc⟩, h.2.1⟩⟩
+/-- the second extra clause: the server holds an http_connection only for a connection whose handshake completed -/
+def HeldConnected (w : World) : Prop := ∀ c ∈ w.conns, c.inHttp = true → c.connected = true
+
+theorem InvS_iff (w : World) : InvS w ↔ Inv w ∧ Settled w ∧ HsFresh w ∧ HeldConnected w :=
+  ⟨fun h => ⟨fun c hc => (h.1 c hc).1, h.2, fun c hc => (h.1 c hc).2.1, fun c hc => (h.1 c hc).2.2⟩,
+   fun h => ⟨fun c hc => ⟨h.1 c hc, h.2.2.1 c hc, h.2.2.2 c hc⟩, h.2.1⟩⟩
 
 theorem mkServer_invS (ws : List String) : InvS (mkServer ws) := aux_invs_mkServer ws
 
@@ -856,9 +946,9 @@ theorem mkServer_inv (ws : List String) : Inv (mkServer ws) ∧ Settled (mkServe
     The hypothesis `hh` is ADDED with respect to the first statement of this theorem: without it the claim is false
     (`simOp_inv_original_false`).  It holds initially and is itself preserved (`simOp_invS`), so it is available
     after every history (`history_invS`). -/
-theorem simOp_inv (w : World) (ws : List String) (h : Inv w) (hs : Settled w) (hh : HsFresh w) :
+theorem simOp_inv (w : World) (ws : List String) (h : Inv w) (hs : Settled w) (hh : HsFresh w) (hk : HeldConnected w) :
     Inv (simOp w ws) ∧ Settled (simOp w ws) :=
-  InvS_implies (simOp_invS w ws ((InvS_iff w).2 ⟨h, hs, hh⟩))
+  InvS_implies (simOp_invS w ws ((InvS_iff w).2 ⟨h, hs, hh, hk⟩))
 
 /-- after every history of script operations on a fresh server -/
 theorem history_invS (ws : List String) (hist : List (List String)) :
